@@ -249,8 +249,9 @@ def deactivated (o : OObj) : OObj := { o with active := false }
     rule); `fileOf` = the file each of them was written to.
     `thr` = fault injected by the environment: the object whose deactivation signal was answered by an exception
     during this call (`none`: nothing went wrong).  The fault excuses exactly this: the call may report failure
-    although it was asked for something it must otherwise do, dependents that were reached before the fault may be
-    gone, and the object named by the fault may be left deactivated.  It excuses nothing else: a call that reports
+    although it was asked for something it must otherwise do, dependents that were deleted before the fault struck
+    may be gone, and the object named by the fault may be left deactivated.  A cascade that reports SUCCESS gets no
+    excuse at all, fault or not (F-C17j, fixed by 0ce9ca7).  It excuses nothing else: a call that reports
     SUCCESS has removed the object, its item and its file and (cascading) every dependent; whatever object went, its
     item and file went with it; whatever object stayed kept its item and its file; nothing else changed. -/
 def specDelete (before : World) (k : Key) (cascade found : Bool) (res : Option Res) (created : List Key)
